@@ -25,6 +25,7 @@ import (
 	"context"
 	"net"
 
+	"github.com/uber-go/tally/v4/internal/verifhook"
 	"github.com/uber-go/tally/v4/thirdparty/github.com/apache/thrift/lib/go/thrift"
 	"go.uber.org/atomic"
 )
@@ -213,6 +214,7 @@ func (p *TUDPTransport) Flush() error {
 	}
 
 	_, err := p.conn.Write(p.writeBuf.Bytes())
+	verifhook.Point(verifhook.UDPFlushed)
 	p.writeBuf.Reset() // always reset the buffer, even in case of an error
 	return err
 }
